@@ -18,10 +18,10 @@ pub const DEF: PropDef = PropDef {
     run,
     replay,
     level: "exploration",
-    rule: "cases = (handshake string, suite, backend, per-message failing attempts from the C07 fault alphabet each followed by a retry with a DIFFERENT payload, then a transport script over {write, failing write, auto rekey of either direction on either side, manual rekey with fresh keys, stateless writes with distinct nonces, set_receiving_nonce on either side (also the send-only side of one-way patterns), delivery of the last written message}); both endpoints use a recording cipher/DH and a seeded RNG that yields fresh bytes on every draw. Oracle: in the merged log of both endpoints no two Enc records share (key, nonce) with different (ad, plaintext) (rekey encryptions included); for every written message containing `e`, the public key on the wire is the DH public key of bytes drawn from the RNG during that very call. Non-trivial = the history contains a failed call that was retried, or a rekey; distinct by (name, suite, faults, transport script)",
+    rule: "cases = (handshake string, suite, backend, per-message failing attempts from the C07 fault alphabet each followed by a retry with a DIFFERENT payload, then a transport script over {write, failing write, auto rekey of either direction on either side, manual rekey with fresh keys, stateless writes with distinct nonces, set_receiving_nonce on either side (also the send-only side of one-way patterns), delivery of the last written message, the sending counter moved forward to 2^64-1-k and writes / rekeys there}); both endpoints use a recording cipher/DH and a seeded RNG that yields fresh bytes on every draw. Oracle: in the merged log of both endpoints no two Enc records share (key, nonce) with different (ad, plaintext) (rekey encryptions included); for every written message containing `e`, the public key on the wire is the DH public key of bytes drawn from the RNG during that very call. Non-trivial = the history contains a failed call that was retried, or a rekey; distinct by (name, suite, faults, transport script)",
     technique: "history invariant over an instrumented CryptoResolver (recording cipher + recording RNG), fault schedules enumerated from reference field maps + proptest",
     assumptions: &[
-        "caller-induced reuse is out of domain: fixed ephemerals, duplicate stateless nonces, the verif sending-nonce hook and manual rekeys to an already used key are not generated",
+        "caller-induced reuse is out of domain: fixed ephemerals, duplicate stateless nonces, backward moves of the sending counter with the verif hook and manual rekeys to an already used key are not generated (the hook is only used to move a sending counter forward to 2^64-1-k)",
         "the recording cipher runs the trait's default rekey through its own logged encrypt/set (no backend overrides rekey)",
     ],
     panic_is_violation: false,
@@ -48,6 +48,10 @@ pub enum TOp {
     /// deliver the last message written in a direction (true = written by the initiator) to the
     /// peer; decryption only
     Deliver(bool),
+    /// stateful only: the sending counter of a side is moved FORWARD to 2^64-1-k (k = 0, 1, 2) with
+    /// the verif hook (never backwards, so no reuse is caused by the caller); writes at 2^64-1
+    /// must fail without encrypting anything
+    JumpToEnd(bool, u8),
 }
 
 #[derive(Clone, Debug, Serialize, Deserialize)]
@@ -333,7 +337,7 @@ pub fn oracle(c: &Case, acc: &mut Acc) -> CaseResult {
                         let mut buf = vec![0u8; plen + 16];
                         let _ = t.write_message(u64::MAX, &payload, &mut buf);
                     },
-                    TOp::SetRecvNonce(..) => {},
+                    TOp::SetRecvNonce(..) | TOp::JumpToEnd(..) => {},
                     TOp::Deliver(from_i) => {
                         let d = if *from_i || oneway { 0 } else { 1 };
                         if let Some((nonce, m)) = &last[d] {
@@ -363,6 +367,13 @@ pub fn oracle(c: &Case, acc: &mut Acc) -> CaseResult {
                     TOp::SetRecvNonce(side_i, v) => {
                         let t = if *side_i { &mut ti } else { &mut tr };
                         t.set_receiving_nonce([0u64, 0, 1, 2, 5, 1000][*v as usize % 6]);
+                    },
+                    TOp::JumpToEnd(side_i, k) => {
+                        let t = if *side_i || oneway { &mut ti } else { &mut tr };
+                        let target = u64::MAX - (*k % 3) as u64;
+                        if t.sending_nonce() <= target {
+                            t.verif_set_sending_nonce(target);
+                        }
                     },
                     TOp::Deliver(from_i) => {
                         let d = if *from_i || oneway { 0 } else { 1 };
@@ -472,6 +483,16 @@ fn default_tops() -> Vec<TOp> {
         TOp::Rekey(true, true),
         TOp::Rekey(false, true),
         TOp::Write(true, 3),
+        TOp::JumpToEnd(true, 1),
+        TOp::Write(true, 4),
+        TOp::Write(true, 5),
+        TOp::Write(true, 6),
+        TOp::Rekey(true, true),
+        TOp::Rekey(false, false),
+        TOp::JumpToEnd(false, 0),
+        TOp::Write(false, 4),
+        TOp::Write(false, 9),
+        TOp::Rekey(false, true),
     ]
 }
 
@@ -485,6 +506,7 @@ fn top_strategy() -> impl Strategy<Value = TOp> {
         1 => (any::<bool>(), prop_oneof![Just(32usize), 0usize..40]).prop_map(|(a, b)| TOp::WriteAtMax(a, b)),
         1 => (any::<bool>(), 0u8..6).prop_map(|(a, b)| TOp::SetRecvNonce(a, b)),
         1 => any::<bool>().prop_map(TOp::Deliver),
+        1 => (any::<bool>(), 0u8..3).prop_map(|(a, b)| TOp::JumpToEnd(a, b)),
     ]
 }
 
@@ -504,7 +526,7 @@ pub fn run(ctx: &Ctx) {
             // no faults: plain history with rekeys
             cases.push(Case { spec: spec.clone(), faults: vec![], plen: 6, tops: default_tops(), stateless: ni % 2 == 0 });
             for (fi, f) in write_faults(&spec, 6).into_iter().enumerate() {
-                let tops = if fi % 8 == 0 { default_tops() } else { vec![TOp::Write(true, 4), TOp::SetRecvNonce(true, 0), TOp::Write(true, 2), TOp::Write(false, 4), TOp::SetRecvNonce(false, 1), TOp::Deliver(true), TOp::Write(false, 1)] };
+                let tops = if fi % 8 == 0 { default_tops() } else { vec![TOp::Write(true, 4), TOp::SetRecvNonce(true, 0), TOp::Write(true, 2), TOp::Write(false, 4), TOp::SetRecvNonce(false, 1), TOp::Deliver(true), TOp::Write(false, 1), TOp::JumpToEnd(true, 1), TOp::Write(true, 3), TOp::Write(true, 4), TOp::Write(true, 5), TOp::Rekey(true, true)] };
                 cases.push(Case { spec: spec.clone(), faults: vec![f], plen: 6, tops, stateless: fi % 3 == 0 });
             }
         }
